@@ -3,24 +3,30 @@ PROP = dict(
     quick=dict(cases=24000, max_size=60, workers=16),
     thorough=dict(cases=600000, max_size=100, workers=16, timeout=7200),
     rule=("a case is one Compiler program (decoded from integers into a tree of straight-line ops / diamonds / counted loops / "
-          "two-entry cycles / annotated jump tables / early returns over 1..200 GP values of 32/64 bits, 0..40 xmm values, 0..10 mask "
-          "values, 0..4 stack slots, local/global constants, 0..11 scalar arguments in registers and on the stack, 0..200 extra pressure "
-          "values); it is compiled by x86::Compiler for x86-64, executed on 32 generated inputs through the host-execution trampoline and "
+          "two-entry cycles / annotated jump tables / multi-entry dispatches (2..6 annotated indirect jumps over ONE target set: two entry "
+          "arms plus re-dispatching cases with a budget, label lists permuted per jump or one shared JumpAnnotation object) / early returns "
+          "over 1..200 GP values of 32/64 bits, 0..40 xmm values, 0..24 ymm (zmm in AVX-512 mode on an AVX-512 host) values with cross-lane "
+          "ops, 0..10 mask values, 0..4 stack slots, local/global constants, 0..11 scalar arguments in registers and on the stack, 0..200 "
+          "extra pressure values, calls to recording callees of three conventions: SysV incl. 128/256-bit vector arguments, Win64 and "
+          "vectorcall (ms_abi C functions) - every callee really destroys all registers its convention lets it destroy, incl. the upper "
+          "parts of ymm/zmm6-15 in the ms_abi callees); it is compiled by x86::Compiler for x86-64, executed on 32 generated inputs through the host-execution trampoline and "
           "compared with the harness' reference interpreter (return value, full scratch-buffer image, call log), compiled a second time "
           "without the pressure values (metamorphic), and compiled for x86-32 and (mapped to an a64 vocabulary) AArch64 with structural "
           "post-RA checks. Non-trivial: the allocator inserted >= 1 load/save/move/swap or reg->mem operand substitution (counted from the "
           "post-RA node list) or the program has a call, a jump table or a fixed-register instruction; distinct = distinct case text. "
           "Before the generated cases every worker runs its share of a deterministic enumeration: every op kind alone (60/400 field "
-          "variants, no pressure: interpreter-vs-CPU self-test) and every (outer construct, inner construct) pair at pressures "
-          "3/12/15/18/40 in SSE/AVX/AVX-512 mode."),
+          "variants, no pressure: interpreter-vs-CPU self-test) and every (outer construct, inner construct) pair (incl. dispatch) at "
+          "pressures 3/12/15/18/40 in SSE/AVX/AVX-512 mode. About 5% of the generated chunks are short scenarios (call, reads, dispatch "
+          "whose second arm writes, cases with calls; wide values read between repeated calls of mixed conventions) with random fields."),
     assumptions=[
         "ASan+UBSan build with ASMJIT_ASSERT active; an ASMJIT_ASSERT abort inside the compiler is caught (SIGABRT + sigsetjmp) and reported as asmjit-assert:<arch>:<file>:<line>",
         "x86-64 code is executed on the host CPU (AVX-512 available) via hostexec/msc_run: private stack with guard pages, every register not used for arguments poisoned, faults are failures (compiled-code-faulted), callee-saved registers and rsp checked",
         "AArch64 and x86-32 code is NOT executed: only finalize() == kOk for programs whose x86-64 build compiled, no virtual register left after RA, ld1-ld4/st1-st4/tbl/tbx list operands consecutive modulo 32; the a64 programs are a structural mapping of the same tree (semantics not preserved)",
         "the reference interpreter models flags only where a cmp/test/bt is generated together with its setcc/cmovcc/jcc; every op kind is cross-checked against the CPU by the enumeration self-test",
-        "32-bit arguments are passed with garbage upper halves (the ABI leaves them undefined); callees are C functions that log their arguments and return a hash of them",
+        "32-bit arguments are passed with garbage upper halves (the ABI leaves them undefined); callees are C functions that log their arguments and return a hash of them; before returning they overwrite every volatile register of their convention (GP, zmm0-31/k0-7 when the host has AVX-512, then vzeroupper); the Win64/vectorcall callees are C functions with __attribute__((ms_abi)) and integer arguments only, invoked through CallConvId::kX64Windows / kVectorCall (stdcall / fastcall in the compile-only x86-32 build)",
         "a failing case is re-decoded with one known trigger shape excluded at a time; if the failure disappears the key is miscompiled:<shape>. Shapes whose key is a listed known finding are excluded by construction (known_hits counts the exclusions), so one known defect does not mask the rest of the program space",
-        "vector values are 128-bit only (xmm, incl. xmm16-31 and {k} merging in AVX-512 mode); ymm/zmm virtual registers, x87/MMX, AH-DH operands, rep-prefixed and x86 register-block/mask-pair instructions (Knights Mill / Tiger Lake only) are not generated",
+        "vector values are xmm (incl. xmm16-31 and {k} merging in AVX-512 mode) and, in AVX/AVX-512 mode, ymm or zmm virtual registers (one width per program; zmm only when CpuInfo reports AVX-512 F/VL/BW/DQ, so a case decodes differently on a host without AVX-512); x87/MMX, AH-DH operands, rep-prefixed and x86 register-block/mask-pair instructions (Knights Mill / Tiger Lake only), vector arguments of Win64/vectorcall callees are not generated",
+        "class counters of the dispatch shapes (second_jump_unallocated_target_first, dispatch_clean_then_dirty_candidate) are computed from the program text under the assumption that the allocator walks blocks in code order; they describe the generated shapes, not allocator state",
     ],
 )
 META = dict(
@@ -35,6 +41,7 @@ META = dict(
     level_note=("Trusts the harness interpreter (~250 lines, cross-checked op by op against the CPU at the start of every run), the host CPU and "
                 "hostexec/msc. Fourteen genuine defects found while building it are listed as known findings; their trigger shapes are removed from "
                 "the generated programs, which reduces coverage of exactly those shapes (32-bit read-write views of 64-bit registers under spilling, "
-                "cmpxchg, and r,0, or [mem],-1, 8/16-bit xor r,r, bt with register offset, kmovw r32,k, empty jump-table cases, a64 list loads under pressure)."),
+                "cmpxchg, and r,0, or [mem],-1, 8/16-bit xor r,r, bt with register offset, kmovw r32,k, empty jump-table cases, a64 list loads under pressure). "
+                "While ra-assert:jump-table-target-is-branch-target is listed every jump-table case starts with a nop (no case label shares its block with another branch target)."),
     design_ref="DESIGN.md section 4, C05; section 7 rows 11 and 14",
 )
